@@ -1,10 +1,131 @@
 import PyxModel.Sexp
+import PyxModel.Attr
 
-/-! driver commands of property C10 (stub: no command yet) -/
+/-! driver for `(attr op…)` command lines (C10): a history on the small world of PyxModel/Attr.lean.
+    Answer: one result per op, then `(state (dict-of-instance-0) … )` and the link list. -/
 namespace Pyx.Driver.C10
-open Pyx Pyx.Sexp
+open Pyx Pyx.Sexp Pyx.Attr
+
+def name? : Sexp → Option Name
+  | str s => some s.toList
+  | _ => none
+
+def val? : Sexp → Option Val
+  | int i => some (.int i)
+  | str s => some (.str s.toList)
+  | sym "none" => some .none
+  | _ => none
+
+def ofName (n : Name) : Sexp := str (String.ofList n)
+
+def ofVal : Val → Sexp
+  | .int i => int i
+  | .str s => str (String.ofList s)
+  | .none => sym "none"
+
+def ofExc : Exc → Sexp
+  | .attributeError => sym "AttributeError"
+  | .keyError => sym "KeyError"
+  | .metaE => sym "Meta"
+  | .metaModelE => sym "MetaModel"
+  | .unknownClass => sym "UnknownClass"
+  | .relateE => sym "Relate"
+  | .unrelateE => sym "Unrelate"
+  | .unknownLink => sym "UnknownLink"
+
+def ofOptExc : Option Exc → Sexp
+  | none => sym "ok"
+  | some e => ofExc e
+
+def pair? : Sexp → Option (Name × Val)
+  | list [n, v] => do pure ((← name? n), (← val? v))
+  | _ => none
+
+def pairs (xs : List Sexp) : List (Name × Val) := xs.filterMap pair?
+
+def attrPair? : Sexp → Option (Name × Name)
+  | list [n, t] => do pure ((← name? n), (← name? t))
+  | _ => none
+
+def ofDict (d : Dict) : Sexp := list (d.map fun kv => list [ofName kv.1, ofVal kv.2])
+
+def step (w : World) : Sexp → World × Sexp
+  | list (sym "define" :: k :: attrs) =>
+    match name? k with
+    | some kind =>
+      match defineClass w.classes kind (attrs.filterMap attrPair?) with
+      | some cs => ({ w with classes := cs }, sym "ok")
+      | none => (w, sym "MetaModel")
+    | none => (w, sym "bad-op")
+  | list [sym "assoc", sk, skey, tk, tkey] =>
+    match name? sk, name? skey, name? tk, name? tkey with
+    | some a, some b, some c, some d =>
+      let (w', e) := defineAssoc w a b c d
+      (w', ofOptExc e)
+    | _, _, _, _ => (w, sym "bad-op")
+  | list [sym "find", k] =>
+    match name? k with
+    | some kind =>
+      match findMetaclass w.classes kind with
+      | some c => (w, ofName c.kind)
+      | none => (w, sym "UnknownClass")
+    | none => (w, sym "bad-op")
+  | list [sym "new", k, list (sym "args" :: args), list (sym "kw" :: kws)] =>
+    match name? k with
+    | some kind =>
+      let (w', e) := newInst w kind (args.filterMap val?) (pairs kws)
+      (w', ofOptExc e)
+    | none => (w, sym "bad-op")
+  | list [sym "set", int i, n, v] =>
+    match name? n, val? v with
+    | some sp, some x =>
+      let (w', e) := writeVal w i.toNat sp x
+      (w', ofOptExc e)
+    | _, _ => (w, sym "bad-op")
+  | list [sym "del", int i, n] =>
+    match name? n with
+    | some sp =>
+      let (w', e) := deleteVal w i.toNat sp
+      (w', ofOptExc e)
+    | none => (w, sym "bad-op")
+  | list (sym "reads" :: int i :: ns) =>
+    (w, list ((ns.filterMap name?).map fun sp =>
+      match readVal w i.toNat sp with
+      | .ok v => ofVal v
+      | .error e => ofExc e))
+  | list (sym "sel" :: k :: filt) =>
+    match name? k with
+    | some kind =>
+      match selectMany w kind (pairs filt) with
+      | .ok l => (w, ofNats l)
+      | .error e => (w, ofExc e)
+    | none => (w, sym "bad-op")
+  | list [sym "rel", int i, int j] =>
+    let (w', e) := relate w i.toNat j.toNat
+    (w', ofOptExc e)
+  | list [sym "unrel", int i, int j] =>
+    let (w', e) := unrelate w i.toNat j.toNat
+    (w', ofOptExc e)
+  | list [sym "ser", int i] =>
+    match serialize w i.toNat with
+    | .ok l => (w, list (l.map ofVal))
+    | .error e => (w, ofExc e)
+  | list [sym "dict", int i] =>
+    match w.insts[i.toNat]? with
+    | some inst => (w, ofDict inst.dict)
+    | none => (w, sym "bad-op")
+  | _ => (w, sym "bad-op")
+
+def run (ops : List Sexp) : Sexp :=
+  let (w, outs) := ops.foldl (fun (acc : World × List Sexp) op =>
+    let (w', r) := step acc.1 op
+    (w', r :: acc.2)) (World.empty, [])
+  list (outs.reverse ++
+    [list (sym "state" :: w.insts.map fun inst => ofDict inst.dict),
+     list (sym "links" :: w.links.map fun p => list [ofNat p.1, ofNat p.2])])
 
 def handle : List Sexp → Option Sexp
+  | sym "attr" :: ops => some (run ops)
   | _ => none
 
 end Pyx.Driver.C10
